@@ -863,7 +863,13 @@ int parse_instruction_6809(AsmContext *asm_context, char *instr)
           if (table_6809_16[n].bytes == 4)
           {
             int32_t offset = operand.value - (asm_context->address + 4);
-            //if (check_range(asm_context, "Offset", offset, -32768, 32767) == -1) { return -1; }
+            if (asm_context->pass == 2)
+            {
+              if (check_range(asm_context, "Offset", offset, -32768, 32767) == -1)
+              {
+                return -1;
+              }
+            }
             add_bin16(asm_context, table_6809_16[n].opcode, IS_OPCODE);
             add_bin16(asm_context, (uint16_t)offset, IS_OPCODE);
             return 4;
